@@ -363,7 +363,7 @@ Proof.
     destruct (refresh_all_arena_keys (gr_keys g1) g1) as [-> _].
     refine (HistoryWF.fold_inv
               (fun g (n : string * option string * list dblock) =>
-                 let '(name, meta, bs) := n in build_note g (key_from_file_name name) meta bs)
+                 let '(name, meta, bs) := n in build_note g (key_name name) meta bs)
               (fun g => arena_ok (gr_arena g) = true /\ all_live (gr_arena g)) notes _ empty_graph g1 _ Hfold).
     - intros [[name meta] bs] s0 s1 Hin Hs Hb. eapply build_note_live; [exact Hs | exact Hb].
     - split; [reflexivity|]. intros i n Hn. destruct i; discriminate. }
@@ -694,8 +694,8 @@ Proof.
   split; vm_compute; reflexivity.
 Qed.
 
-(* without distinct keys the import already leaves a live unrooted tree (HistoryWF.import_wf_refuted,
-   files x.md and x.md.md: finding F-C14-5) *)
+(* without distinct keys (a list that is not a map) the import already leaves a live unrooted tree
+   (HistoryWF.import_wf_refuted) *)
 
 (* three notes (headings, a block reference, nested lists, a table followed by a paragraph with a
    link, a quote, a note in a sub-directory), five updates: a rewrite, an emptied note, a table
